@@ -128,19 +128,22 @@ func (w *world) lookup(file, startScope, name string, typesOnly bool, tg refTogg
 		if !ok {
 			continue
 		}
+		level := "@message-scope"
+		if len(w.pkgFiles[scope]) > 0 {
+			level = "@package-scope"
+		}
 		if compound {
 			if !isAggregateKind(k, tg) {
-				tag("skip-non-aggregate-first-component:" + k)
+				tag("skip-non-aggregate-first-component" + level)
 				continue
 			}
 			if k == kPackage {
 				tag("first-component-is-package")
 			} else {
-				tag("first-component-is-" + k)
+				tag("first-component-is-" + k + level)
 			}
 			full := scope + "." + name
 			if k2, e2, ok := w.find(file, full); ok {
-				tag("found-in-enclosing-scope")
 				return done(k2, e2, full)
 			}
 			tag("aggregate-remainder-missing")
@@ -148,10 +151,9 @@ func (w *world) lookup(file, startScope, name string, typesOnly bool, tg refTogg
 			return res
 		}
 		if typesOnly && !isTypeKind(k) {
-			tag("skip-non-type:" + k)
+			tag("skip-non-type" + level)
 			continue
 		}
-		tag("found-in-enclosing-scope")
 		return done(k, e, cand)
 	}
 	tag("root")
